@@ -392,6 +392,10 @@ HOSTILE = [
     ["Many(3)", "Many(3)", "Many(3)", "Byte(7)"], ["Many(0)", "Many(0)", "Save(0)", "Save(1)", "Byte(0)"],
     ["Many(4)", "Save(0)", "Save(1)", "Fuzzy(0)", "Byte(9)"], ["Fuzzy(0)", "Many(2)", "Byte(1)"],
     ["Rangext(2)", "Rangext(1)", "Many(1)", "Nop", "Byte(0)"],
+    # the peek shortcut looks through Save only: any other atom in front of the Byte selects the plain loop,
+    # whose failed attempts leave their captures behind
+    ["Many(6)", "Nop", "Save(1)", "Byte(7)"], ["Many(0)", "Aligned(0)", "Save(0)", "Byte(0)"], ["Many(8)", "Save(0)", "Nop", "Save(1)", "Byte(1)"],
+    ["Many(9)", "Save(0)", "Save(1)", "Byte(255)", "Byte(254)"], ["Many(5)", "Zero(1)", "Save(0)", "Byte(65)"], ["Skip(1)", "Many(7)", "Fuzzy(255)", "Save(1)", "Byte(0)", "Byte(9)"],
     # Back, Pir, Check, Fuzzy
     ["Back(0)", "Save(0)"], ["Back(255)", "Save(0)", "Byte(0)"], ["Rangext(255)", "Back(255)", "Save(0)"], ["Skip(4)", "Back(4)", "Check(0)"],
     ["Save(0)", "Skip(1)", "Check(0)"], ["Save(0)", "Check(0)", "Check(9)"], ["Pir(0)", "Save(1)"], ["Save(0)", "Pir(0)", "Save(1)"], ["Pir(200)", "Save(1)"],
@@ -489,4 +493,84 @@ def gen_exec(rng, tier):
                 o.append("pat_exec %s Back(%d),Ptr,Save(0),Skip(12),ReadU32(1) 0x%x 2" % (k, bits // 8, c))
                 o.append("pat_exec %s Back(%d),Ptr,Save(0),Skip(12),Ptr,Save(1) 0x%x 2" % (k, bits // 8, c))
             cases.append([img_line(rng, im)] + o)
+    return cases
+
+
+# ---------------------------------------------------------------- the repository's own binaries
+
+def parse_sections(data):
+    e = struct.unpack_from("<I", data, 60)[0]
+    nsec, = struct.unpack_from("<H", data, e + 6)
+    soh, = struct.unpack_from("<H", data, e + 20)
+    magic, = struct.unpack_from("<H", data, e + 24)
+    soi, sohdr = struct.unpack_from("<II", data, e + 24 + 56)
+    secs = []
+    for i in range(nsec):
+        o = e + 24 + soh + 40 * i
+        vs, va, rs, prd = struct.unpack_from("<IIII", data, o + 8)
+        secs.append((va, vs, prd, rs))
+    return 64 if magic == 0x20B else 32, soi, sohdr, secs
+
+
+def map_real(data):
+    bits, soi, sohdr, secs = parse_sections(data)
+    out = bytearray(soi)
+    out[:sohdr] = data[:sohdr]
+    for va, vs, prd, rs in secs:
+        raw = data[prd:prd + rs]
+        n = min(len(raw), soi - va)
+        out[va:va + n] = raw[:n]
+    return bytes(out)
+
+
+def bytes_atoms(hexs):
+    return [A("Byte", b) for b in bytes.fromhex(hexs)]
+
+
+def gen_corpus(rng, tier):
+    """demo/Demo.dll and demo/Demo64.dll, as files and mapped, with the patterns of tests/demo64.rs
+    (hand-translated to atoms) and short code idioms whose matches overlap and repeat"""
+    import os
+    cases = []
+    # tests/demo64.rs::scanner : "4C8B41'? 4C2BC2 ????????? 0FB60A 420FB60402 2BC8 75% 8B15${'} 85 C9"
+    p1 = [A("Save", 0)] + bytes_atoms("4C8B41") + [A("Save", 1), A("Skip", 1)] + bytes_atoms("4C2BC2") + [A("Skip", 9)] + \
+        bytes_atoms("0FB60A420FB604022BC875") + [A("Jump1")] + bytes_atoms("8B15") + [A("Push", 4), A("Jump4"), A("Save", 2), A("Pop")] + bytes_atoms("85C9")
+    # "0F1002 488BC1 0F1101 F20F104A10 F20F114910 C3" : the pinned quick search edge
+    p2 = [A("Save", 0)] + bytes_atoms("0F1002488BC10F1101F20F104A10F20F114910C3")
+    idioms = [
+        [A("Save", 0), A("Byte", 0xE8), A("Push", 4), A("Jump4"), A("Save", 1), A("Pop"), A("Save", 2)],            # scanner.rs::test
+        [A("Jump1"), A("Save", 1), A("Byte", 0x0F), A("Byte", 0x0D)],
+        [A("Save", 0)] + bytes_atoms("8B018B10FFD2"),
+        [A("Save", 0)] + bytes_atoms("CCCCCCCC"),                                                                     # padding runs: overlapping matches
+        [A("Save", 0)] + bytes_atoms("CCCC") + [A("Aligned", 4)],
+        [A("Save", 0)] + bytes_atoms("4883EC") + [A("ReadU8", 1), A("Many", 32), A("Save", 2)] + bytes_atoms("4883C4") + [A("ReadU8", 3), A("Byte", 0xC3)],
+        [A("Save", 0)] + bytes_atoms("488D") + [A("Fuzzy", 0xC7), A("Byte", 0x05), A("Push", 4), A("Jump4"), A("Save", 1), A("Pop")],
+        [A("Save", 0), A("Byte", 0xC3), A("Case", 2), A("Byte", 0xCC), A("Break", 1), A("Byte", 0x90), A("Save", 1)],
+        [A("Save", 0)] + bytes_atoms("0000000000000000"),
+        [A("Save", 0), A("Ptr"), A("Save", 1), A("ReadU32", 2)],
+    ]
+    for fn in ("/repo/demo/Demo64.dll", "/repo/demo/Demo.dll"):
+        if not os.path.exists(fn):
+            continue
+        data = open(fn, "rb").read()
+        bits, soi, sohdr, secs = parse_sections(data)
+        view = map_real(data)
+        for im, ks in ((data, ["f%d" % bits, "wf"]), (view, ["v%d" % bits, "wv"])):
+            ops = []
+            for k in ks:
+                for p in ([p1, p2] if k == ks[0] else [p1]):
+                    ops.append("finds_code %s %s 8" % (k, atoms_str(p)))
+                    ops.append("scan_code %s %s 8" % (k, atoms_str(p)))
+                ops.append("finds %s %s 0x148f 0x14a3 8" % (k, atoms_str(p2)))
+                ops.append("finds %s %s 0x1490 0x149f 8" % (k, atoms_str(p2)))
+                ops.append("scan %s %s 0x1490 0x14a3 8" % (k, atoms_str(p2)))
+                ops.append("scan %s %s 0x1490 0x14a4 8" % (k, atoms_str(p2)))
+            k = ks[0]
+            for p in idioms:
+                ops.append("scan_code %s %s 4" % (k, atoms_str(p)))
+                ops.append("scan %s %s 0 0x%x 4" % (k, atoms_str(p), soi))
+                va, vs, prd, rs = rng.choice(secs)
+                ops.append("scan %s %s 0x%x 0x%x 4" % (k, atoms_str(p), va + rng.randrange(0, 64), va + max(vs, rs)))
+                ops.append("finds_code %s %s 4" % (k, atoms_str(p)))
+            cases.append([img_line(rng, im, 0, "e")] + ops)
     return cases
